@@ -481,19 +481,20 @@ func (s *recordingSpan) End(options ...trace.SpanEndOption) {
 		s.addEvent(semconv.ExceptionEventName, opts...)
 	}
 
-	if s.executionTracerTaskEnd != nil {
-		s.mu.Unlock()
-		s.executionTracerTaskEnd()
-		s.mu.Lock()
-	}
-
 	// Setting endTime to non-zero marks the span as ended and not recording.
+	// This is done in the same critical section as the recording check above
+	// so that only one of several concurrent calls to End ends the span.
 	if config.Timestamp().IsZero() {
 		s.endTime = et
 	} else {
 		s.endTime = config.Timestamp()
 	}
+	taskEnd := s.executionTracerTaskEnd
 	s.mu.Unlock()
+
+	if taskEnd != nil {
+		taskEnd()
+	}
 
 	sps := s.tracer.provider.getSpanProcessors()
 	if len(sps) == 0 {
